@@ -202,6 +202,24 @@ package standard
 //@   ensures result == (in(s.pendingAttestations, slot) && s.pendingAttestations[slot])
 //@   modifies nothing
 //@
+//@ // ---- C20: the subscription information kept per epoch stays within a window of recent epochs ----
+//@ // every timely head event leaves only the subscription information of its epoch, the one before it and later ones,
+//@ // whatever was held before (an epoch without a timely head event does not leave its predecessors behind)
+//@ // (under contract so that the head event handler is verified against their contracts rather than their bodies)
+//@ func (*Service).checkEventForReorg
+//@   requires s != nil && nolocks()
+//@ func (*Service).VerifySyncCommitteeMessages
+//@   requires s != nil && nolocks()
+//@
+//@ func (*Service).HandleHeadEvent
+//@   requires s != nil && event != nil && nolocks()
+//@   // the events provider hands on what go-eth2-client decoded for the head topic
+//@   requires !isnil(event.Data) ==> hastype(event.Data, "*apiv1.HeadEvent") && unbox(event.Data, "*apiv1.HeadEvent") != nil
+//@   // epoch: the epoch of the event's slot as answered by the chain time service at the start of the handler
+//@   loop 1
+//@     invariant forall e phase0.Epoch :: visited(e) && u64(e + 2) <= epoch ==> !in(s.subscriptionInfos, e)
+//@   at call Unlock#1: assert forall e phase0.Epoch {in(s.subscriptionInfos, e)} :: in(s.subscriptionInfos, e) ==> e + 2 > epoch
+//@
 //@ // the wall-clock epoch is (now - genesis) / (slot duration * slots per epoch): far below 2^62 for any clock
 //@ func (*Service).handlePreviousDependentRootChanged
 //@   assumes call CurrentEpoch (e): e <= 4611686018427387904
